@@ -284,6 +284,18 @@ def h_layout(shape):
             okf = False
         # n_qubits <= floor(traps * filling)  <=>  n_qubits <= traps * filling
         obs.append(("k2:filling_accept_iff_within_fraction", IFF(okf, nq <= ntraps * fill)))
+        # the whole validate_register on a layout-defined register: every rule applies together
+        maxn = inp.int("max_atom_num", 1, 40)
+        try:
+            dev2 = mk_device(inp, shape, dims=2, max_layout_filling=fill, min_layout_traps=mn, max_layout_traps=mx, max_atom_num=maxn)
+        except (ValueError, TypeError):
+            return obs
+        try:
+            dev2.validate_register(reg)
+            okr = True
+        except Exception:  # noqa: BLE001
+            okr = False
+        obs.append(("k2:layout_register_accept_iff_all_rules", IFF(okr, AND(fits, nq <= ntraps * fill, nq <= maxn))))
         return obs
 
     return h
@@ -396,6 +408,9 @@ def kernels(tier):
                     if nsym == 2 and n == 3 and (maxr and mind):
                         continue
                     ks.append(("coords", dict(dims=dims, n=n, nsym=nsym, mind=mind, maxr=maxr, maxn=(n >= 2 and nsym == 1))))
+    # four atoms (pair bookkeeping differs from the 3-atom case: condensed-vector index <-> pair)
+    ks.append(("coords", dict(dims=2, n=4, nsym=1, mind=True, maxr=False, maxn=False)))
+    ks.append(("coords", dict(dims=2, n=4, nsym=0, mind=True, maxr=False, maxn=False, shift=True)))
     # atoms on one axis: distances are exact in binary64, so the thresholds themselves (==) are decided too
     for n in (1, 2):
         for mind in (True, False):
